@@ -4,11 +4,19 @@ import c06
 
 def run(ctx):
     thorough = ctx.tier == "thorough"
+    if ctx.replay and '"ev":"Run"' in open(ctx.replay).read():
+        ctx.validate("", "Trace_RxPath", "Trace_RxPath.cfg", ctx.replay, shards=1, label="replay (recorded trace)", extra_env={"JUDGE": "C07"})
+        return ctx.finish()
     if ctx.replay:
         ctx.validate("", "Trace_Wire", "Trace_Wire.cfg", ctx.replay, shards=1, label="replay (recorded trace)", extra_env={"JUDGE": "C07"}, stack="64m")
         return ctx.finish()
     ctx.tlc_mc("", "MC_Wire", "MC_Wire.cfg", workers=4)
     c06.drive(ctx, "C07", ["-prefix", "-count", 60 if thorough else 8], "every proper prefix of every valid encoding (all kinds, row/parameter data over all data types), then the complete parse on the same queue")
+    # the same question where it matters: the channel's parse-or-rollback loop.  Every package kind on its own, cut at
+    # every offset; the truncated attempt must leave no trace in what is delivered or in the hooks
+    import rxcommon
+    sk = rxcommon.drive(ctx, "kinds", ["-kinds", 6 if thorough else 2], "through Channel.WritePacket: every package kind on its own, every 1-cut (delivered values and hook calls as without the cut)", env={"JUDGE": "C07"})
+    ctx.extra["channel_level_runs"] = sk["runs"]
     ctx.assumptions += ["prefixes are supplied as one packet of exactly the prefix length (no padding); encodings longer than 4000 bytes are skipped",
                         "the complete parse after a truncated attempt: position restored, the rest added as a second packet, compared by a complete field dump with a fresh parse"]
     return ctx.finish(rule="for every generated valid encoding and every k < len: outcome class of ReadFrom on the first k bytes; TLC requires all of them to be 'need'")
